@@ -44,6 +44,9 @@ CONSTANTS NApps,      \* applications of the operator object (1 = C24)
                       \* another observer to the same observable, re-entrantly) - shared-subject variants without a
                       \* replay window only (with the subject on the virtual clock the reaction is a later same-instant
                       \* hop, whose order relative to further source events of that instant the statement leaves open)
+                      \* "reconnect" (raw connectables: on its first element the subscriber calls connect() on the
+                      \* connectable, re-entrantly - from inside the outer connect() when the cold source delivers that
+                      \* element synchronously while it is being subscribed (SrcTab rows with events at offset 0))
           MinLen      \* a history ends after at least this many commands (0 when exhaustive; > 0 steers -simulate,
                       \* which picks between Do and Finish with equal odds, towards long histories)
 
@@ -76,7 +79,11 @@ SrcTab == <<
   <<Stamp(1, "N", 0), Stamp(2, "N", 1), Stamp(3, "N", 2), Stamp(4, "C", 0)>>,
   <<Stamp(1, "N", 0), Stamp(2, "N", 1), Stamp(4, "E", 0)>>,
   <<>>,
-  <<Stamp(1, "N", 0), Stamp(2, "N", 1), Stamp(3, "N", 2), Stamp(4, "N", 3), Stamp(5, "C", 0)>> >>
+  <<Stamp(1, "N", 0), Stamp(2, "N", 1), Stamp(3, "N", 2), Stamp(4, "N", 3), Stamp(5, "C", 0)>>,
+  \* rows 11..13 (cold only): events at offset 0 are delivered synchronously INSIDE subscribe, i.e. while connect() runs
+  <<Stamp(0, "N", 0), Stamp(2, "N", 1), Stamp(3, "C", 0)>>,
+  <<Stamp(0, "N", 0), Stamp(0, "N", 1), Stamp(2, "E", 0)>>,
+  <<Stamp(0, "N", 0), Stamp(1, "N", 1)>> >>
 
 \* generated family: <= GenLen elements at non-decreasing instants 1..TEnd, then nothing / C / E
 NonDecr(m) == {f \in [1..m -> 1..TEnd] : \A i \in 1..(m - 1) : f[i] <= f[i + 1]}
@@ -107,13 +114,8 @@ S0 == [now |-> 0, nextId |-> 1, asked |-> {},
        child |-> [k \in SubIds |-> 0], spawned |-> [k \in SubIds |-> FALSE]]   \* "spawn" subscribers: see SubjSub
 
 (* ---- ConnectableObservable ------------------------------------------------------------------ *)
-\* connect(): not connected => open ONE source subscription into the subject; else the existing connection
-Connect(Z, a, t) ==
-  IF Z.connected[a] THEN Z
-  ELSE [Z EXCEPT !.connected[a] = TRUE, !.epoch[a] = @ + 1,
-                 !.ssubs[a] = Append(@, [s |-> t, e |-> NEVER, o |-> 0]),
-                 !.conn[a] = Len(Z.ssubs[a]) + 1,
-                 !.cper[a] = Append(@, [s |-> t, e |-> NEVER])]
+\* connect(): defined below (Connect) - a cold source may deliver its offset-0 events from inside the call
+RECURSIVE Connect(_, _, _)
 CloseSub(Z, a, i, t) == IF i = 0 THEN Z ELSE IF Z.ssubs[a][i].e # NEVER THEN Z ELSE [Z EXCEPT !.ssubs[a][i].e = t]
 CloseConn(Z, a, t) == [CloseSub(Z, a, Z.conn[a], t) EXCEPT !.conn[a] = 0]
 Disconnect(Z, a, t) ==
@@ -136,6 +138,14 @@ RECURSIVE SpawnAll(_, _, _, _)
 SpawnAll(Z, a, ks, t) ==
   IF ks = {} THEN Z
   ELSE LET k == CHOOSE x \in ks : \A y \in ks : x <= y IN SpawnAll(Spawn(Z, a, k, t), a, ks \ {k}, t)
+\* A "reconnect" subscriber k reacts to the FIRST element it receives by calling connect() on the connectable:
+\* a no-op returning the existing connection while connected (also while the outer connect() is still
+\* subscribing the source), a new connection otherwise (current / replayed value seen while disconnected).
+Reconnect(Z, a, k, t) == Connect([Z EXCEPT !.spawned[k] = TRUE], a, t)
+RECURSIVE ReconnectAll(_, _, _, _)
+ReconnectAll(Z, a, ks, t) ==
+  IF ks = {} THEN Z
+  ELSE LET k == CHOOSE x \in ks : \A y \in ks : x <= y IN ReconnectAll(Reconnect(Z, a, k, t), a, ks \ {k}, t)
 
 SubjSub(Z, a, k, t) ==
   LET st  == Z.stopped[a]
@@ -149,7 +159,8 @@ SubjSub(Z, a, k, t) ==
      ELSE LET Zr == IF st = "no"
                     THEN [Z0 EXCEPT !.out[k] = pre, !.live[k] = TRUE, !.members[a] = @ \cup {k}, !.queue[a] = q2]
                     ELSE [Z0 EXCEPT !.out[k] = Append(pre, Stamp(t, st, 0)), !.till[k] = Len(Z.slog[a]), !.queue[a] = q2]
-          IN IF Z.mode[k] = "spawn" /\ pre # <<>> THEN Spawn(Zr, a, k, t) ELSE Zr
+          IN IF Z.mode[k] = "spawn" /\ pre # <<>> THEN Spawn(Zr, a, k, t)
+             ELSE IF Z.mode[k] = "reconnect" /\ pre # <<>> THEN Reconnect(Zr, a, k, t) ELSE Zr
 
 \* the connection delivers source event e to the shared subject at instant t
 FeedShared(Z, a, e, t) ==
@@ -166,7 +177,8 @@ FeedShared(Z, a, e, t) ==
               \* "spawn" subscribers seeing their first element subscribe their child from inside this delivery
               \* (the child is not in the subject's snapshot: it gets the current / replayed value, not this call)
               sp == {k \in Z.members[a] : Z.mode[k] = "spawn" /\ ~Z.spawned[k]}
-          IN SpawnAll(Leave(Z1, a, Cardinality(gone), t), a, sp, t)
+              rk == {k \in Z.members[a] : Z.mode[k] = "reconnect" /\ ~Z.spawned[k]}
+          IN ReconnectAll(SpawnAll(Leave(Z1, a, Cardinality(gone), t), a, sp, t), a, rk, t)
   ELSE \* the source terminated: its subscription is released; the subject stops (once); its observers leave
      LET Z1 == CloseConn(Z, a, t) IN
      IF Z1.stopped[a] # "no" THEN Z1
@@ -191,6 +203,8 @@ PrivTerm(Z, a, k, kd, t) ==
   IF ~Z.live[k] THEN ClosePriv(Z, a, k, t)
   ELSE ClosePriv([Z EXCEPT !.out[k] = Append(@, Stamp(t, kd, 0)), !.live[k] = FALSE], a, k, t)
 
+Sync0(a) == IF hot[a] THEN <<>> ELSE SelectSeq(src[a], LAMBDA e : e.t = 0)
+RECURSIVE FeedSeq(_, _, _, _, _)
 (* ---- commands ------------------------------------------------------------------------------------ *)
 SubCmd(Z, a, k, t, m) ==
   LET Z0 == [Z EXCEPT !.sapp[k] = a, !.mode[k] = m, !.child[k] = IF m = "spawn" THEN k + 1 ELSE 0,
@@ -199,12 +213,13 @@ SubCmd(Z, a, k, t, m) ==
      LET Z1 == [Z0 EXCEPT !.live[k] = TRUE, !.subAt[k] = t]
          Z2 == IF kind.sk = "behavior" THEN PrivNext(Z1, a, k, INITV, t) ELSE Z1
          Z3 == [Z2 EXCEPT !.ssubs[a] = Append(@, [s |-> t, e |-> NEVER, o |-> k]), !.psub[k] = Len(Z2.ssubs[a]) + 1]
-     IN IF Z3.live[k] THEN Z3 ELSE ClosePriv(Z3, a, k, t)
+     IN IF Z3.live[k] THEN FeedSeq(Z3, a, Z3.psub[k], Sync0(a), t) ELSE ClosePriv(Z3, a, k, t)
   ELSE CASE kind.wr = "none" -> SubjSub(Z0, a, k, t)
          [] kind.wr = "ref_count" ->
               (LET Z1 == SubjSub([Z0 EXCEPT !.rc[a] = @ + 1], a, k, t)      \* may contain a nested subscribe (spawn)
                    Z2 == IF Z.rc[a] = 0 THEN Connect(Z1, a, t) ELSE Z1       \* 0 -> 1: decided on the count k found
-               IN IF Z2.live[k] THEN Z2 ELSE Leave(Z2, a, 1, t))              \* the subject had stopped: k is gone again
+               IN IF Z1.live[k] THEN Z2 ELSE Leave(Z2, a, 1, t))              \* the subject had stopped: k is gone again
+                                                                              \* (Z1: a source terminating inside Connect has done its own Leave)
          [] OTHER ->   \* auto_connect(n): "connect() after that many subscriptions occur" - cumulative, never disconnects
               (LET Z1 == SubjSub([Z0 EXCEPT !.total[a] = @ + 1], a, k, t)
                IN IF Z.total[a] + 1 = kind.n THEN Connect(Z1, a, t) ELSE Z1)   \* k is the n-th subscription
@@ -217,14 +232,22 @@ UnsubCmd(Z, k, t) ==
        ELSE Leave([Z1 EXCEPT !.members[a] = @ \ {k}, !.till[k] = Len(Z.slog[a])], a, 1, t)
 
 (* ---- the sources: deliver the events of one instant ----------------------------------------------- *)
-Due(a, sub, u) == SelectSeq(src[a], LAMBDA e : IF hot[a] THEN e.t = u ELSE e.t = u - sub.s)
+Due(a, sub, u) == SelectSeq(src[a], LAMBDA e : IF hot[a] THEN e.t = u ELSE e.t >= 1 /\ e.t = u - sub.s)
 FeedOne(Z, a, i, e, t) ==
   IF Z.ssubs[a][i].e # NEVER THEN Z                       \* closed meanwhile
   ELSE IF Z.ssubs[a][i].o = 0 THEN FeedShared(Z, a, e, t)
   ELSE IF e.k = "N" THEN PrivNext(Z, a, Z.ssubs[a][i].o, e.v, t)
   ELSE PrivTerm(Z, a, Z.ssubs[a][i].o, e.k, t)
-RECURSIVE FeedSeq(_, _, _, _, _)
 FeedSeq(Z, a, i, evs, t) == IF evs = <<>> THEN Z ELSE FeedSeq(FeedOne(Z, a, i, Head(evs), t), a, i, Tail(evs), t)
+\* connect(): not connected => open ONE source subscription into the subject (a cold source delivers its
+\* offset-0 events from inside that subscribe: the observable is already connected then); else the existing connection
+Connect(Z, a, t) ==
+  IF Z.connected[a] THEN Z
+  ELSE LET Z1 == [Z EXCEPT !.connected[a] = TRUE, !.epoch[a] = @ + 1,
+                           !.ssubs[a] = Append(@, [s |-> t, e |-> NEVER, o |-> 0]),
+                           !.conn[a] = Len(Z.ssubs[a]) + 1,
+                           !.cper[a] = Append(@, [s |-> t, e |-> NEVER])]
+       IN FeedSeq(Z1, a, Z1.conn[a], Sync0(a), t)
 RECURSIVE SubsLoop(_, _, _, _)
 SubsLoop(Z, a, i, u) ==
   IF i > Len(Z.ssubs[a]) THEN Z
@@ -249,21 +272,28 @@ ConnectAll(Z, a) == IF a > NApps THEN Z ELSE ConnectAll(Connect(Z, a, 0), a + 1)
 InitState == IF kind.wr = "auto" /\ kind.n = 0 THEN ConnectAll(S0, 1) ELSE S0     \* auto_connect(0): at once
 
 Raw == kind.wr = "none" /\ kind.mp = "none"
+\* the handle of connection x is the script's to dispose once a connect COMMAND returned it (a connection made by a
+\* "reconnect" subscriber's own connect() call is only disposable after a connect command has fetched its handle)
+HasHandle(a, x) == (\E i \in 1..Len(hist) : hist[i].m = "reconnect")
+                      => \E i \in 1..Len(hist) : hist[i].c = "connect" /\ hist[i].a = a /\ hist[i].e = x
 Menu(t) ==
   {[Cmd("sub", a, S.nextId, t, 0) EXCEPT !.m = m] : a \in IF S.nextId <= NSubs THEN Apps ELSE {},
                                                      m \in IF kind.mp = "none" /\ kind.w = NoneP
-                                                           THEN {x \in Modes : x = "spawn" => S.nextId + 1 <= NSubs}   \* needs an id for the child
+                                                           THEN {x \in Modes : /\ (x = "spawn" => S.nextId + 1 <= NSubs)   \* needs an id for the child
+                                                                                /\ (x = "reconnect" => Raw)}
                                                            ELSE {"all"}}
   \cup {Cmd("unsub", S.sapp[k], k, t, 0) : k \in {j \in 1..(S.nextId - 1) : S.sapp[j] # 0 /\ (ReUnsub \/ j \notin S.asked)}}
   \cup (IF Raw
         THEN {Cmd("connect", a, 0, t, IF S.connected[a] THEN S.epoch[a] ELSE S.epoch[a] + 1) : a \in Apps}
              \cup UNION {{Cmd("disconnect", a, 0, t, e) :
-                            e \in {x \in 1..S.epoch[a] : x = S.epoch[a] \/ (StaleDisc /\ x = S.epoch[a] - 1)}} : a \in Apps}
+                            e \in {x \in 1..S.epoch[a] : /\ (x = S.epoch[a] \/ (StaleDisc /\ x = S.epoch[a] - 1))
+                                                          /\ HasHandle(a, x)}} : a \in Apps}
         ELSE {})
 
 Init == /\ kind \in KindSet /\ tie \in Ties
         /\ (kind.w # NoneP => tie = "src")      \* a windowed replay needs the subject on the virtual clock (see notes)
         /\ src \in [Apps -> SrcChoices] /\ hot \in [Apps -> Hots]
+        /\ \A a \in Apps : hot[a] => \A i \in 1..Len(src[a]) : src[a][i].t >= 1     \* offset-0 events: cold sources only
         /\ S = InitState /\ hist = <<>> /\ done = FALSE
 
 Do == /\ ~done /\ Len(hist) < MaxSteps
@@ -331,7 +361,8 @@ Before(x, u) == u = NEVER \/ (IF tie = "src" THEN x <= u ELSE x < u)
 RefMapped(k) ==
   LET a == S.sapp[k]
       abs(e) == IF hot[a] THEN e.t ELSE S.subAt[k] + e.t
-      vis == SelectSeq(src[a], LAMBDA e : Seen(abs(e)) /\ After(abs(e), S.subAt[k]) /\ Before(abs(e), S.unsubAt[k]))
+      vis == SelectSeq(src[a], LAMBDA e : \/ (~hot[a] /\ e.t = 0)        \* delivered inside the subscribe itself
+                                          \/ Seen(abs(e)) /\ After(abs(e), S.subAt[k]) /\ Before(abs(e), S.unsubAt[k]))
       raw == (IF kind.sk = "behavior" THEN <<Stamp(S.subAt[k], "N", INITV)>> ELSE <<>>)
              \o [j \in 1..Len(vis) |-> Stamp(abs(vis[j]), vis[j].k, IF vis[j].k = "N" THEN vis[j].v ELSE 0)]
       ns == SelectSeq(raw, LAMBDA x : x.k = "N")
